@@ -9,7 +9,7 @@ LEVEL_TEXT = (
     "sampled + extracted-list correspondence; sha256/JSON hashing is represented by its key (assumed injective)."
 )
 RULE = (
-    "resolve: every sequence up to length 3 (quick) / 4 (thorough) over a 21-symbol alphabet of citation kinds "
+    "resolve: every sequence up to length 3 (quick) / 4 (thorough) over a 24-symbol alphabet of citation kinds "
     "(exhaustive), sampled longer sequences, and lists extracted from generated documents. Non-trivial = resolution "
     "returns and some group has >= 2 members; distinct by the symbol sequence / document."
 )
